@@ -297,3 +297,50 @@ PROPS['C05'] = dict(
                 "only from a peer behaviour that used the key.",
     assumptions=_TCP_ASSUME + ["concatenation ambiguity of salt||hostname||nonce||key is inherent to the protocol and outside the symbolic model"],
 )
+
+_CONC_RULE = ("conc suite: real goroutines on client.Client over a connection mock whose Write is not atomic (accepts the bytes in "
+              "three pieces and yields in between): sendmix (4 goroutines x 12 sends of 1..9 KiB, no ack), sendack (with acks; the "
+              "peer acknowledges every complete message), hsmix (senders with ack while another goroutine runs Handshake and "
+              "TransportPhase), lifecycle (6 goroutines x 200 random Connect/Disconnect/Reconnect/TransportPhase/Send), hsrace "
+              "(honest handshakes while others poll TransportPhase); judged on the recorded wire (a concatenation of complete, "
+              "unmixed encodings, every successful send exactly once), on dial/close accounting and under the race detector. "
+              "distinct = distinct (scenario, seed); non-trivial = every run")
+_CONC_SUITE = dict(suite='conc', n=dict(quick=10, thorough=200), shards=dict(quick=1, thorough=8), trivial=r'^-$')
+_CONC_ASSUME = ["the translator is trusted for the shape of the control-flow graph (which statements are lock operations, accesses, calls; "
+                "their order and branching); its lockset annotations are not trusted: FV.Lk.check re-validates them in the kernel",
+                "sync.Mutex / sync.RWMutex: standard exclusion, no fairness assumed; 'data race' = two goroutines enabled at conflicting accesses"]
+
+PROPS['C08'] = dict(
+    translator=True,
+    lean_modules=['FluentVerif.Conc.Lockset', 'FluentVerif.Tie.Conc', 'FluentVerif.Props.C09'],
+    theorems=['FV.Lk.check_sound', 'FV.Lk.critical_section_exclusive', 'FV.Tie.client_lockset', 'FV.Tie.C08_wire_under_mutex',
+              'FV.Tie.C08_sections_exclusive', 'FV.Tcp.C09_ok_all', 'FV.Tcp.C09_prefix'],
+    suites=[_CONC_SUITE, _TCP_SUITE],
+    race_suites=[('conc', dict(quick=10, thorough=100))],
+    rule=_CONC_RULE + ' || ' + _TCP_RULE,
+    explanation="check_sound / critical_section_exclusive (for all programs, schedules, numbers of goroutines) instantiated with the "
+                "control-flow graph regenerated from client.go on this run: Tie.client_lockset (check Gen.client = true, by decide) "
+                "and C08_wire_under_mutex (every use of the connection holds the send mutex or the session lock exclusively) give "
+                "C08_sections_exclusive: send sections never overlap; with C09 (one write of the whole encoding per section) the "
+                "wire is a concatenation of complete encodings and one send at a time awaits its ack. Search when an obligation "
+                "breaks: concurrent scenarios on a non-atomic connection mock + race detector.",
+    assumptions=_CONC_ASSUME + _TCP_ASSUME[:1],
+)
+
+PROPS['C14'] = dict(
+    translator=True,
+    lean_modules=['FluentVerif.Conc.Lockset', 'FluentVerif.Tie.Conc', 'FluentVerif.Props.C06'],
+    theorems=['FV.Lk.check_sound', 'FV.Tie.client_lockset', 'FV.Tie.C14_race_free', 'FV.Tcp.C06_inv_run', 'FV.Tcp.C14_one_open',
+              'FV.Tcp.C14_connect_active', 'FV.Tcp.C14_no_panic'],
+    suites=[_CONC_SUITE, _TCP_SUITE],
+    race_suites=[('conc', dict(quick=10, thorough=100))],
+    rule=_CONC_RULE + ' || ' + _TCP_RULE,
+    explanation="Sequential: C06_inv_run / C14_one_open — for every operation sequence exactly the session's connection is open, every "
+                "connection is closed once, at the step that replaces or drops it; C14_connect_active; C14_no_panic. Concurrent: "
+                "C14_race_free = check_sound on the regenerated graph of client.go: under every schedule no two goroutines are at "
+                "conflicting accesses to session / TransportPhase / the connection; lifecycle operations hold the session lock "
+                "exclusively, so they are atomic and the sequential invariant holds at every point of every concurrent history. "
+                "Search: lifecycle / hsrace scenarios with dial-close accounting, watchdog (deadlock) and the race detector.",
+    assumptions=_CONC_ASSUME + _TCP_ASSUME[:1] + ["deadlock freedom is argued for the lock graph only (sessionLock before the send mutex, "
+                                                   "never the reverse); I/O that never returns blocks Disconnect by design"],
+)
